@@ -84,6 +84,9 @@ def case_st(draw, density=False):
         "power_kind": power_kind, "power": draw(fl(0.0, 1.0)), "powers": [[draw(fl(0.0, 1.0)) for _ in range(3)] for _ in range(n)],
         "power_dict": {"Cu": draw(fl(0, 1)), "H": draw(fl(0, 1))},
         "seed": draw(st.integers(0, 2 ** 32)), "steps": 20000 if density else 30,
+        # documented way to change masses during a run: atoms.set_masses(...) followed by update_masses()
+        "remass_at": None if density else draw(st.one_of(st.none(), st.integers(1, 20))),
+        "new_masses": [draw(fl(1, 200)) for _ in range(n)],
     }
     return case
 
@@ -111,7 +114,8 @@ def build(case):
 
     with warnings.catch_warnings():
         warnings.simplefilter("ignore")
-        mc = Counting(atoms, delta=delta, temperature=case["T"], seed=case["seed"])
+        # the driver gets its own copy of a per-coordinate delta: the oracle keeps the values the user passed
+        mc = Counting(atoms, delta=(delta.copy() if isinstance(delta, np.ndarray) else delta), temperature=case["T"], seed=case["seed"])
         pk = case["power_kind"]
         if pk == "scalar":
             mc.masses_scaling_power = float(case["power"])
@@ -129,14 +133,14 @@ def build(case):
     else:
         p = np.array([[case["power_dict"].get(s, 0.25)] * 3 for s in case["symbols"]], dtype=float)
     scaling = np.power(m.min() / m, p)
-    return mc, atoms, delta, scaling, gam, forces
+    return mc, atoms, delta, scaling, gam, forces, p
 
 
 def run_case(case):
     density = case["steps"] > 1000
     labels = ["density" if density else "bound", "delta:" + ("array" if case["deltas"] is not None else "scalar"), "power:" + case["power_kind"]]
     try:
-        mc, atoms, delta, scaling, gam, forces = build(case)
+        mc, atoms, delta, scaling, gam, forces, pexp = build(case)
     except Exception as exc:
         return {"labels": labels + ["raised"], "nontrivial": True, "violation": {"kind": f"build-raises:{type(exc).__name__}", "detail": repr(exc)[:300]}}
     ag = np.abs(gam)
@@ -149,7 +153,14 @@ def run_case(case):
     try:
         with warnings.catch_warnings():
             warnings.simplefilter("ignore")
-            for _ in range(case["steps"]):
+            for istep in range(case["steps"]):
+                if case.get("remass_at") is not None and istep == case["remass_at"]:
+                    atoms.set_masses(case["new_masses"])
+                    mc.update_masses()
+                    m2 = np.array(case["new_masses"], dtype=float)[:, None] * np.ones((1, 3))
+                    scaling = np.power(m2.min() / m2, pexp)
+                    bound = np.abs(delta * scaling)
+                    out["labels"] = sorted(set(out["labels"]) | {"masses-updated-mid-run"})
                 before = atoms.positions.copy()
                 mc.rounds = 0
                 mc.step()
